@@ -26,3 +26,12 @@ func VerifSpaceType(s *Space) int { return s.typ }
 
 // VerifIsOverflow reports whether err is the reserve-exhausted error.
 func VerifIsOverflow(err error) bool { return err == errSpaceOverflow }
+
+// VerifHolderSpace builds a Space from the built-in reserve exactly as Acquire does on its fallback path.
+func VerifHolderSpace(n int) (*Space, error) {
+	addr, space, err := acquireFromHolder(n)
+	if err != nil {
+		return nil, err
+	}
+	return &Space{Addr: addr, Space: space, typ: TypeHolder}, nil
+}
